@@ -52,8 +52,24 @@ func lemmaParseWire(parser *callArgsParser, data string) (string, [][]byte, erro
 //@   requires exists(f, bseq, l, blist, n, int, noAt(f) && len(f) > 0 && n >= 0 && seq(data) == wire(f, l, n) && ghostF == f && ghostL == l && ghostN == n)
 //@   ensures[C10,C12] err == nil && seq(function) == ghostF && len(arguments) == ghostN && forall(j, int, 0 <= j && j < ghostN ==> seq(arguments[j]) == lnth(ghostL, j))
 
+// The encoder of storage-update lists, stated through the tokens of its result (T = strings.Split(result, "@")):
+// 2n tokens, the hex forms of offset and data of each update in order; the result starts with a hex digit when
+// the first offset is not empty, and is empty for the empty list (the two input classes of finding F10 are the
+// ones this leaves out: see lemmaStorageUpdatesRoundTrip).
 //@ func (parser *storageUpdatesParser) CreateDataFromStorageUpdate
 //@   requires forall(j, int, 0 <= j && j < len(storageUpdates) ==> storageUpdates[j] != nil)
+//@   loop 0 invariant 0 <= i && i <= len(storageUpdates)
+//@   loop 0 invariant i < len(storageUpdates) ==> llen(splitAt(seq(data))) == 2 * i + 1 && len(lnth(splitAt(seq(data)), 2 * i)) == 0
+//@   loop 0 invariant i == len(storageUpdates) && i >= 1 ==> llen(splitAt(seq(data))) == 2 * i
+//@   loop 0 invariant i == 0 ==> len(data) == 0
+//@   loop 0 invariant forall(j, int, trigger(itemTag(j)), itemTag(j) && 0 <= j && j < i ==> lnth(splitAt(seq(data)), 2 * j) == hex(seq(storageUpdates[j].Offset)))
+//@   loop 0 invariant forall(j, int, trigger(itemTag(j)), itemTag(j) && 0 <= j && j < i ==> lnth(splitAt(seq(data)), 2 * j + 1) == hex(seq(storageUpdates[j].Data)))
+//@   loop 0 invariant i >= 1 && len(storageUpdates[0].Offset) > 0 ==> len(data) > 0 && seq(data)[0] != 64
+//@   ensures[C12] len(storageUpdates) >= 1 ==> llen(splitAt(seq(r))) == 2 * len(storageUpdates) && forall(j, int, trigger(itemTag(j)), itemTag(j) && 0 <= j && j < len(storageUpdates) ==> lnth(splitAt(seq(r)), 2 * j) == hex(seq(storageUpdates[j].Offset)) && lnth(splitAt(seq(r)), 2 * j + 1) == hex(seq(storageUpdates[j].Data)))
+//@   ensures[C12] len(storageUpdates) >= 1 && len(storageUpdates[0].Offset) > 0 ==> len(r) > 0 && seq(r)[0] != 64
+//@   ensures[C12] len(storageUpdates) == 0 ==> len(r) == 0
+//@   ensures[C12] len(storageUpdates) >= 1 ==> itemTag(0) && lnth(splitAt(seq(r)), 0) == hex(seq(storageUpdates[0].Offset))
+//@   ensures[C12] len(storageUpdates) >= 1 ==> forall(t, int, trigger(lnth(splitAt(seq(r)), t)), 0 <= t && t < llen(splitAt(seq(r))) ==> itemTag(t / 2) && isHex(lnth(splitAt(seq(r)), t)))
 
 //@ func (parser *deployArgsParser) parseCode
 //@   results code, err
@@ -109,11 +125,60 @@ func lemmaDeployRoundTrip(code []byte, vmType []byte, md vmcommon.CodeMetadata, 
 //@   ensures[C12] r.CodeMetadata.Upgradeable == md.Upgradeable && r.CodeMetadata.Readable == md.Readable && r.CodeMetadata.Payable == md.Payable
 //@   modifies new(parsers.DeployArgs), new([]string), new([][]byte)
 
+// The decoder of storage-update lists: one leading '@' is dropped, the rest is split at '@' into an even number of
+// hex tokens, decoded pairwise into (offset, data).
 //@ func (parser *storageUpdatesParser) GetStorageUpdates
 //@   results r, err
+//@   view D = ite(len(data) > 0 && seq(data)[0] == 64, seq(data)[1:len(data)], seq(data))
 //@   requires len(data) < 268435456
 //@   loop 0 invariant 0 <= i && i <= len(tokens) && i % 2 == 0 && len(tokens) % 2 == 0 && storageUpdates != nil && fresh(storageUpdates)
+//@   loop 0 invariant 2 * len(storageUpdates) == i
+//@   loop 0 invariant forall(j, int, trigger(itemTag(j)), itemTag(j) && 0 <= j && j < len(storageUpdates) ==> storageUpdates[j] != nil && allocated(storageUpdates[j]))
+//@   loop 0 invariant forall(j, int, trigger(itemTag(j)), itemTag(j) && 0 <= j && j < len(storageUpdates) ==> seq(storageUpdates[j].Offset) == unhex(seq(tokens[2 * j])))
+//@   loop 0 invariant forall(j, int, trigger(itemTag(j)), itemTag(j) && 0 <= j && j < len(storageUpdates) ==> seq(storageUpdates[j].Data) == unhex(seq(tokens[2 * j + 1])))
+//@   loop 0 assert itemTag(len(storageUpdates) - 1)
 //@   ensures[C12] err != nil ==> r == nil
+//@   ensures[C12] err == nil ==> 2 * len(r) == llen(splitAt(D)) && forall(j, int, trigger(itemTag(j)), itemTag(j) && 0 <= j && j < len(r) ==> r[j] != nil && seq(r[j].Offset) == unhex(lnth(splitAt(D), 2 * j)) && seq(r[j].Data) == unhex(lnth(splitAt(D), 2 * j + 1)))
+//@   ensures[C12] len(lnth(splitAt(D), 0)) > 0 && llen(splitAt(D)) % 2 == 0 && forall(j, int, 0 <= j && j < llen(splitAt(D)) ==> isHex(lnth(splitAt(D), j))) ==> err == nil
+//@   modifies new([]string), new([]*vmcommon.StorageUpdate), new(vmcommon.StorageUpdate)
+
+// lemmaStorageUpdatesRoundTrip (C12): a non-empty list of storage updates whose first offset is not empty,
+// encoded and parsed, comes back update by update. The two classes left out - the empty list and an empty first
+// offset - are finding F10 (the bounded cross-check reports their inputs).
+func lemmaStorageUpdatesRoundTrip(parser *storageUpdatesParser, updates []*vmcommon.StorageUpdate) (r []*vmcommon.StorageUpdate, err error, inScope bool) {
+	data := parser.CreateDataFromStorageUpdate(updates)
+	if len(data) >= 1<<28 {
+		return nil, nil, false // beyond the input-size bound under which the parser is specified
+	}
+	r, err = parser.GetStorageUpdates(data)
+	return r, err, true
+}
+
+//@ func lemmaStorageUpdatesRoundTrip
+//@   results r, err, inScope
+//@   requires len(updates) >= 1 && len(updates) < 1048576 && forall(j, int, 0 <= j && j < len(updates) ==> updates[j] != nil && allocated(updates[j])) && len(updates[0].Offset) > 0
+//@   ensures[C12] inScope ==> err == nil
+//@   ensures[C12] inScope ==> len(r) == len(updates)
+//@   ensures[C12] inScope ==> forall(j, int, trigger(itemTag(j)), itemTag(j) && 0 <= j && j < len(updates) ==> seq(r[j].Offset) == seq(updates[j].Offset) && seq(r[j].Data) == seq(updates[j].Data))
+//@   modifies new([]string), new([]*vmcommon.StorageUpdate), new(vmcommon.StorageUpdate)
+
+// lemmaStorageUpdatesRoundTripAnyList: the same statement without the two restrictions. It does not hold -
+// finding F10: the empty list encodes to "", which the parser rejects, and a list whose first offset is empty
+// encodes to a string with a leading '@', which the parser drops - and is recorded as such.
+func lemmaStorageUpdatesRoundTripAnyList(parser *storageUpdatesParser, updates []*vmcommon.StorageUpdate) (r []*vmcommon.StorageUpdate, err error, inScope bool) {
+	data := parser.CreateDataFromStorageUpdate(updates)
+	if len(data) >= 1<<28 {
+		return nil, nil, false
+	}
+	r, err = parser.GetStorageUpdates(data)
+	return r, err, true
+}
+
+//@ func lemmaStorageUpdatesRoundTripAnyList
+//@   results r, err, inScope
+//@   requires len(updates) < 1048576 && forall(j, int, 0 <= j && j < len(updates) ==> updates[j] != nil && allocated(updates[j]))
+//@   ensures[C12,kf:F10] inScope ==> err == nil && len(r) == len(updates)
+//@   modifies new([]string), new([]*vmcommon.StorageUpdate), new(vmcommon.StorageUpdate)
 
 // ---- ESDT transfer parser: the report equals what the built-in functions debit and credit (C10-iii) -------
 // The per-token (identifier, nonce, value), the receiver and the attached call are stated over the same
